@@ -8214,7 +8214,7 @@ func (p *Parser) identifier() ast.IdentifierNode {
 }
 
 func (p *Parser) methodCallIdentifier() ast.IdentifierNode {
-	if p.accept(token.PUBLIC_IDENTIFIER) {
+	if p.accept(token.PUBLIC_IDENTIFIER, token.DOLLAR_IDENTIFIER) {
 		return p.publicIdentifier()
 	}
 	if p.accept(token.PRIVATE_IDENTIFIER) {
